@@ -368,7 +368,10 @@ def regrid_spec(dset, freq=None, dir=None, maintain_m0=True):
         dsout = dsout.interp(freq=freq, assume_sorted=False, kwargs={"fill_value": 0})
 
     if maintain_m0:
-        scale = dset.spec.hs() ** 2 / dsout.spec.hs() ** 2
+        hs_in = dset.spec.hs()
+        hs_out = dsout.spec.hs()
+        # No energy in and none out: nothing to rescale (0 / 0 would turn zeros into NaN)
+        scale = (hs_in**2 / hs_out**2).where((hs_in != 0) | (hs_out != 0), 1.0)
         dsout = dsout * scale
 
     if isinstance(dsout, xr.DataArray):
